@@ -422,7 +422,8 @@ func scaleFor(r *vproto.Rng) float64 {
 	case 1:
 		return math.Ldexp(1, -24)
 	case 2:
-		return math.Ldexp(1, -30)
+		// far below the size at which the clipper's absolute tolerances bite (clipLine scales these up)
+		return math.Ldexp(1, []int{-30, -30, -40, -60, -400}[r.Intn(5)])
 	case 3:
 		return math.Ldexp(1, 20)
 	}
@@ -695,6 +696,60 @@ func clipOnce(l geom.Linear, pg geom.Polygonal) (geom.Linear, bool) {
 	return res, before == vproto.GeomToks(l)+"|"+vproto.GeomToks(pg)
 }
 
+// scribble overwrites every coordinate of g in place.
+func scribble(g geom.Geom) {
+	nan := math.NaN()
+	path := func(r []geom.Point) {
+		for i := range r {
+			r[i] = geom.Point{X: nan, Y: nan}
+		}
+	}
+	switch x := g.(type) {
+	case geom.LineString:
+		path(x)
+	case geom.MultiLineString:
+		for _, l := range x {
+			path(l)
+		}
+	case geom.Polygon:
+		for _, r := range x {
+			path(r)
+		}
+	case geom.MultiPolygon:
+		for _, pg := range x {
+			for _, r := range pg {
+				path(r)
+			}
+		}
+	case *geom.Bounds:
+		x.Min, x.Max = geom.Point{X: nan, Y: nan}, geom.Point{X: nan, Y: nan}
+	}
+}
+
+// probeAlias observes what the translation of the glue does not model (slices are values there, capacity =
+// length): (1) appending to a returned piece must not change any returned piece (two pieces cut from one
+// backing array, the first with spare capacity reaching into the second); (2) overwriting the operands after
+// the call must not change the result (a piece that is a sub-slice of the receiver or of a ring of the argument).
+// The operands are private to the case.  "" = nothing observed.
+func probeAlias(l geom.Linear, pg geom.Polygonal, res geom.Linear) string {
+	before := vproto.GeomToks(res)
+	if ml, ok := res.(geom.MultiLineString); ok {
+		for _, piece := range ml {
+			// two points: the first lands on the closing vertex that Clip cut off, the second beyond the ring
+			_ = append(piece, geom.Point{X: math.NaN(), Y: math.NaN()}, geom.Point{X: math.NaN(), Y: math.NaN()})
+		}
+		if vproto.GeomToks(res) != before {
+			return "appending-to-a-returned-piece-changed-a-returned-piece"
+		}
+	}
+	scribble(l)
+	scribble(pg)
+	if vproto.GeomToks(res) != before {
+		return "overwriting-an-operand-after-the-call-changed-the-result"
+	}
+	return ""
+}
+
 func impl() {
 	vproto.Lines(func(line string, out *bufio.Writer) {
 		defer out.Flush()
@@ -708,12 +763,16 @@ func impl() {
 					panic("harness: expected |")
 				}
 				pg, _ := p.Geom().(geom.Polygonal)
-				r, same := clipOnce(l, shapes.Flat(pg))
+				flat := shapes.Flat(pg)
+				r, same := clipOnce(l, flat)
 				if !same {
 					res = "mutated"
 					return
 				}
 				res = "ok " + vproto.GeomToks(r)
+				if why := probeAlias(l, flat, r); why != "" {
+					res = "aliased " + why
+				}
 			case "cc":
 				res = concurrentClip(line)
 			case "hclip":
